@@ -428,6 +428,7 @@ def viol_context(path, c, ln):
     for rid0, n0 in pendres.items():
         if n0 > 0:
             ctx.append("pending-resource-response:" + rid0)
+            ctx.append("pending-resource-response")
     # earlier in this history the connection was sent events right after a get response (recorded finding
     # KF-GET-EVENTS): resources handed over inside such events are unknown to the client from then on
     after_get = False
@@ -448,6 +449,7 @@ def viol_context(path, c, ln):
             # a call/auth/new resource response that does not carry the resource's data (recorded finding
             # KF-RESOURCE-RESPONSE-STALE); the dangling reference persists in later frames
             ctx.append("okrid-without-data:" + h[4])
+            ctx.append("okrid-without-data")
     if len(g) > 3 and g[0] == "RESP" and g[1] == c:
         start = None
         for i0, x in enumerate(lines[:ln - 1]):
@@ -487,6 +489,9 @@ def match_known(ctx, pid, kind, contexts, sites, rid=None):
             continue
         need = f.get("context")
         if need and need not in contexts:
+            continue
+        anyctx = f.get("contexts")
+        if anyctx and not (set(anyctx) & set(contexts)):
             continue
         need_sites = f.get("sites")
         pref = f.get("context_prefixes")
